@@ -39,6 +39,13 @@ Write(bits, ok) ==
        THEN ok /\ s' = s \o bits
        ELSE ~ok /\ \E k \in 0..(cap - Len(s)) : s' = s \o SubSeq(bits, 1, k)
 
+\* Append to a GROWING bit string (BitString.Append): never fails, every bit of the nested string is written (wherever the
+\* nested string's own read cursor is), the capacity grows as far as needed.
+AppendGrow(bits) ==
+  /\ UNCHANGED <<r, nrefs, rr>>
+  /\ s' = s \o bits
+  /\ cap' = IF Len(s) + Len(bits) > cap THEN Len(s) + Len(bits) ELSE cap
+
 \* Read w bits: `ok` as reported; on success the cursor moves by adv (w, or 0 for a peek).
 Read(w, adv, ok) ==
   /\ UNCHANGED <<s, cap, nrefs, rr>>
